@@ -94,6 +94,7 @@ type Store struct {
 	audit bool
 	log   []auditEntry
 	seen  map[[2]int]bool
+	flat  map[int]*flatArr
 	True  *Term
 	False *Term
 }
@@ -251,6 +252,11 @@ func (s *Store) Bin(op Op, a, b *Term) *Term {
 		}
 		if a == b {
 			return s.rw(s.Const(w, 0), op, w, 0, 0, a, b)
+		}
+		if ba, oa := baseOff(a); ba != nil {
+			if bb, ob := baseOff(b); bb == ba {
+				return s.rw(s.Const(w, oa-ob), op, w, 0, 0, a, b)
+			}
 		}
 	case OpAnd:
 		if a.op == OpConst {
@@ -715,6 +721,11 @@ func (s *Store) Select(arr, idx *Term) *Term {
 	if arrIdx(arr.w) != idx.w {
 		panic(fmt.Sprintf("select index width %d on %s", idx.w, sortStr(arr.w)))
 	}
+	if idx.op == OpConst && arr.op == OpStore {
+		if v, ok := s.flatSelect(arr, idx.val); ok {
+			return s.rw(v, OpSelect, ew, 0, 0, arr, idx)
+		}
+	}
 	cur := arr
 	for {
 		switch cur.op {
@@ -735,6 +746,54 @@ func (s *Store) Select(arr, idx *Term) *Term {
 		return s.rw(s.raw(OpSelect, ew, 0, "", 0, 0, cur, idx), OpSelect, ew, 0, 0, arr, idx)
 	}
 	return s.raw(OpSelect, ew, 0, "", 0, 0, arr, idx)
+}
+
+// flatSelect answers a constant-index select on a store chain whose indices
+// are all constants from a per-array cache (long ground arrays: file images,
+// initialised tables).
+func (s *Store) flatSelect(arr *Term, idx uint64) (*Term, bool) {
+	if s.flat == nil {
+		s.flat = map[int]*flatArr{}
+	}
+	fa, ok := s.flat[arr.id]
+	if !ok {
+		// only worth it for long chains
+		n := 0
+		cur := arr
+		for cur.op == OpStore && cur.a[1].op == OpConst {
+			n++
+			cur = cur.a[0]
+		}
+		if n < 64 || (cur.op != OpConstArr && cur.op != OpVar) {
+			s.flat[arr.id] = nil
+			return nil, false
+		}
+		fa = &flatArr{m: make(map[uint64]*Term, n), base: cur}
+		cur = arr
+		for cur.op == OpStore {
+			k := cur.a[1].val
+			if _, seen := fa.m[k]; !seen {
+				fa.m[k] = cur.a[2]
+			}
+			cur = cur.a[0]
+		}
+		s.flat[arr.id] = fa
+	}
+	if fa == nil {
+		return nil, false
+	}
+	if v, ok := fa.m[idx]; ok {
+		return v, true
+	}
+	if fa.base.op == OpConstArr {
+		return s.Const(arrElem(arr.w), fa.base.val), true
+	}
+	return nil, false
+}
+
+type flatArr struct {
+	m    map[uint64]*Term
+	base *Term
 }
 
 func (s *Store) StoreArr(arr, idx, v *Term) *Term {
